@@ -159,8 +159,9 @@ def make_spec(types, tree=None, feats=None):
         spec["iqxy"] = ["mul", ["c", 1.25], iq]
     if feats.get("novolfn") and not vnodes:
         # the table has no volume parameter, yet the definition supplies volume functions (no arguments)
-        spec["volume"] = ["c", 2.0]
-        if feats["novolfn"] == "reff":
+        if feats["novolfn"] == "volume":
+            spec["volume"] = ["c", 2.0]
+        else:
             spec["reff"] = [["c", 3.0], ["c", 4.0]]
     return spec
 
@@ -304,6 +305,28 @@ def run_case(case, ctx):
     raise HarnessError("unknown case kind %r" % case["kind"])
 
 
+def _judge(got, tags, ref, declared):
+    """compare every flavour with the reference outputs; returns ({flavour: message}, want, mags)"""
+    want = {"I": ref["I"], "F2": ref["F2"], "vshell": ref["vshell"],
+            "vratio": ref["vratio"] if ref["vratio"] is not None else 0.0}
+    mags = {"I": ref["mag"], "F2": ref.get("magF2"), "vshell": None, "vratio": None}
+    if declared:
+        want["reff"] = ref["reff"]
+        mags["reff"] = None
+    bad = {}
+    for tag in tags:
+        g = got[tag]
+        if isinstance(g, Exception):
+            bad[tag] = "raised %r" % (g,)
+            continue
+        for out in want:
+            ok, err = refmodel.close(g[out], want[out], mags[out], rtol=1e-11)
+            if not ok:
+                bad.setdefault(tag, "")
+                bad[tag] += "%s: got %s, formula gives %s; " % (out, g[out], want[out])
+    return bad, want, mags
+
+
 def _table_sig(info):
     return [(p.name, p.type, tuple(p.limits), p.default, p.length, p.polydisperse)
             for p in info.parameters.kernel_parameters]
@@ -400,28 +423,28 @@ def _run_pair(case, ctx):
                             "vratio": float(vratio), "reff": float(reff)}
             except Exception as exc:  # noqa
                 got[tag] = exc
-        # reference outputs
-        want = {"I": ref["I"], "F2": ref["F2"], "vshell": ref["vshell"],
-                "vratio": ref["vratio"] if ref["vratio"] is not None else 0.0}
-        mags = {"I": ref["mag"], "F2": ref.get("magF2"), "vshell": None, "vratio": None}
-        if declared:
-            want["reff"] = ref["reff"]
-            mags["reff"] = None
-        bad = {}
-        for tag in tags:
-            g = got[tag]
-            if isinstance(g, Exception):
-                bad[tag] = "raised %r" % (g,)
-                continue
-            for out in want:
-                ok, err = refmodel.close(g[out], want[out], mags[out], rtol=1e-11)
-                if not ok:
-                    bad.setdefault(tag, "")
-                    bad[tag] += "%s: got %s, formula gives %s; " % (out, g[out], want[out])
+        bad, want, mags = _judge(got, tags, ref, declared)
+        if bad and feats.get("novolfn"):
+            # The table has no volume parameter but the definition supplies volume functions: the documentation
+            # ("form volume is not needed") leaves open whether they are used.  Either reading is accepted as
+            # long as BOTH flavours follow the same one.
+            spec0 = dict(spec, volume=None, reff=None)
+            ref0 = G.mean_from_points(lambda pt: G.point_eval(spec0, pt, q, 0, dim), len(q),
+                                      dict(vals, scale=SCALE, background=BACKGROUND), disp, cutoff)
+            bad0, want0, _ = _judge(got, tags, ref0, declared)
+            if not bad0:
+                bad = {}
+                br.append("volume-functions-ignored-by-both")
+            else:
+                ign = [t for t in tags if t not in bad0]
+                bad = {t: m + " [flavours ignoring the volume functions: %s]" % (", ".join(ign) or "none")
+                       for t, m in bad.items()}
         nt = ref["nqual"] >= 2
         if bad:
             cbad, pbad = "c" in bad, any(t in bad for t in ("py", "pys"))
             clause = "py-vs-c" if (cbad and pbad) else ("c-vs-formula" if cbad else "py-vs-formula")
+            if feats.get("novolfn"):
+                clause = "py-vs-c"
             if cbad and pbad:
                 # both differ from the formula: do they at least agree with each other?
                 gc, gp = got["c"], got["py"]
